@@ -193,3 +193,50 @@ Proof.
   rewrite Hk in H. cbn in H. rewrite Hf, Hnk in H. apply andb_true_iff in H. destruct H as [A B].
   apply negb_true_iff, Z.eqb_neq in A. apply Z.leb_le in B. auto.
 Qed.
+
+(** * lock files without a live owner, in any state (pre-made files of dead holders) *)
+
+(** an empty or undecodable lock file that has not been modified for more than factor * interval
+    is removed and replaced by a waiter that has used up its retries, by its own three steps, in
+    no time - for the code with the modification-time guard and the undecodable-as-empty rule *)
+Theorem old_unreadable_file_obtainable c s i w ec : undec c = true ->
+  file s = Some i -> content s i = FEmpty \/ content s i = FGarbage ->
+  cs s w = CExists ec -> (retries c <= S ec)%nat -> factor c * interval c < now s - mtime s i ->
+  exists s3, run c s [LOpenRead w; LRemove w; LTryCreate w] = Some s3 /\
+             cs s3 w = CCreated (S ec) (nexti s) /\ file s3 = Some (nexti s) /\ now s3 = now s.
+Proof.
+  intros Hu Hf Hc Hw Hret Hold.
+  assert (Hcond : ((S ec <? retries c)%nat || (guard c && negb (factor c * interval c <? now s - mtime s i))) = false).
+  { apply orb_false_iff. split; [apply Nat.ltb_ge; exact Hret|].
+    apply Z.ltb_lt in Hold. rewrite Hold. cbn. apply andb_false_r. }
+  cbn [run step]. rewrite Hw, Hf.
+  destruct Hc as [Hc|Hc]; rewrite Hc; try rewrite Hu; rewrite Hcond; cbn [step cs set_cs]; rewrite upd_eq;
+    cbn [step cs file]; rewrite upd_eq; (eexists; split; [reflexivity|]); cbn [cs file now nexti]; rewrite upd_eq; auto.
+Qed.
+
+(** ... and as long as it was modified within factor * interval, or the retries are not used
+    up, the waiter only sleeps the empty-retry time: it neither removes the file nor fails *)
+Theorem young_unreadable_file_waited_for c s i w ec : undec c = true -> guard c = true ->
+  file s = Some i -> content s i = FEmpty \/ content s i = FGarbage -> cs s w = CExists ec ->
+  (S ec < retries c)%nat \/ now s - mtime s i <= factor c * interval c ->
+  exists s1, step c s (LOpenRead w) = Some s1 /\ cs s1 w = CSleep (S ec) (now s + esleep c) /\ file s1 = file s.
+Proof.
+  intros Hu Hg Hf Hc Hw Hy.
+  assert (Hcond : ((S ec <? retries c)%nat || (guard c && negb (factor c * interval c <? now s - mtime s i))) = true).
+  { apply orb_true_iff. destruct Hy as [Hy|Hy]; [left; apply Nat.ltb_lt; exact Hy | right].
+    rewrite Hg. cbn. apply negb_true_iff, Z.ltb_ge. exact Hy. }
+  cbn [step]. rewrite Hw, Hf. destruct Hc as [Hc|Hc]; rewrite Hc; try rewrite Hu; rewrite Hcond;
+    (eexists; split; [reflexivity|]); cbn [cs file set_cs]; rewrite upd_eq; auto.
+Qed.
+
+(** free-lock monitor: in an accepted case without a pre-made file, kills, suspensions or crashed
+    creators, a thread all of whose contenders had finished or came later acquired promptly *)
+Theorem free_ok_sound c : free_ok c = true -> cinit c = None ->
+  existsb (fun e => (ekind e =? 2) || (ekind e =? 4) || (ekind e =? 6)) (cevents c) = false ->
+  forall o st, In o (cobs c) -> first_time (cevents c) 0 (otid o) = Some st -> free_for c o st = true ->
+  oout o = 0 /\ otime o - st <= free_prompt.
+Proof.
+  unfold free_ok. intros H Hi Hk o st Ho Hst Hf. rewrite Hi, Hk in H. cbn [orb] in H.
+  rewrite forallb_forall in H. specialize (H o Ho). rewrite Hst, Hf in H. cbn in H.
+  apply andb_true_iff in H. destruct H as [A B]. apply Z.eqb_eq in A. apply Z.leb_le in B. auto.
+Qed.
